@@ -47,7 +47,11 @@ class KmipOperationFailure(Exception):
             reason: a ResultReason enumeration
             message: a string providing additional error information
         """
-        msg = "{0}: {1} - {2}".format(status.name, reason.name, message)
+        msg = "{0}: {1} - {2}".format(
+            getattr(status, 'name', status),
+            getattr(reason, 'name', reason),
+            message
+        )
         super(KmipOperationFailure, self).__init__(msg)
         self.status = status
         self.reason = reason
